@@ -35,7 +35,7 @@ def main():
         try:
             opts = E.size_options(c["topo"], c["nx"], c["ny"], 1)
             opts.update(c["options"])
-            eq, _ = E.make_tokamak(E.TOPO_GEOM[c["topo"]], opts, psi_sign=c.get("psi_sign", 1.0))
+            eq, _ = E.make_tokamak(c.get("geometry") or E.TOPO_GEOM[c["topo"]], opts, psi_sign=c.get("psi_sign", 1.0))
             r["ok"] = 1
             uo = eq.user_options
             axis, bdry = eq.psi_axis, eq.psi_bdry
